@@ -45,6 +45,10 @@ type Loader struct {
 
 	visitedDocuments map[string]*T
 
+	// docLocations holds the location each document is (or was) resolved
+	// against: the base of everything found inside that document.
+	docLocations map[*T]*url.URL
+
 	visitedRefs map[string]struct{}
 	visitedPath []string
 	backtrack   map[string][]func(value any)
@@ -197,6 +201,11 @@ func (loader *Loader) ResolveRefsIn(doc *T, location *url.URL) (err error) {
 	if loader.visitedPathItemRefs == nil {
 		loader.resetVisitedPathItemRefs()
 	}
+
+	if loader.docLocations == nil {
+		loader.docLocations = make(map[*T]*url.URL)
+	}
+	loader.docLocations[doc] = location
 
 	if components := doc.Components; components != nil {
 		for _, name := range componentNames(components.Headers) {
@@ -357,6 +366,7 @@ func (loader *Loader) resolveComponent(doc *T, ref string, path *url.URL, resolv
 	componentPath *url.URL,
 	err error,
 ) {
+	sameDocument := ref != "" && ref[0] == '#'
 	if componentDoc, ref, componentPath, err = loader.resolveRefAndDocument(doc, ref, path); err != nil {
 		return nil, nil, err
 	}
@@ -439,6 +449,12 @@ func (loader *Loader) resolveComponent(doc *T, ref string, path *url.URL, resolv
 			return nil, nil, err
 		}
 		err = nil
+	} else if sameDocument {
+		// Found in componentDoc itself: what lives there is based at that
+		// document's location, whichever file the reference was met in.
+		if base, ok := loader.docLocations[componentDoc]; ok {
+			componentPath = base
+		}
 	}
 
 	setPathRef := func(target any) {
